@@ -158,20 +158,12 @@ def no_step_lost(chk: Check) -> None:
     chk.ob('DOM-no-step-lost', dp, 'self.on_paused' in hooks, '_do_pause runs the paused hook (which creates the pause future)', kind='on-paused-called')
     cia = prog.func('processes.Process._create_interrupt_action')
     exc_param = cia.params[1]
-    pb = [n for n in ast.walk(cia.node) if isinstance(n, ast.If) and 'PauseInterruption' in norm(n.test)]
-    ok = False
-    for b in pb:
-        partials = [c for s in b.body for c in ast.walk(s) if isinstance(c, ast.Call) and norm(c.func) in ('functools.partial', 'partial')]
-        acts = [c for s in b.body for c in ast.walk(s) if isinstance(c, ast.Call) and last_name(c) == 'CancellableAction']
-        if len(partials) == 1 and len(acts) == 1:
-            p = partials[0]
-            ok = [norm(a) for a in p.args] == ['self._do_pause', f'{exc_param}.msg'] and not p.keywords
-            a0 = acts[0].args[0] if acts[0].args else None
-            if isinstance(a0, ast.Name):
-                ok = ok and any(isinstance(s, ast.Assign) and norm(s.targets[0]) == a0.id and s.value is p for s in b.body)
-            else:
-                ok = ok and a0 is p
-            ok = ok and any(k.arg == 'cookie' and norm(k.value) == exc_param for k in acts[0].keywords)
+    from ..rules import action_built_for
+    built = action_built_for(chk.ctx, cia, 'PauseInterruption')
+    ok = bool(built)
+    for c_, fn_, cookie_ in built:
+        ok &= c_ is not None and isinstance(fn_, ast.Call) and norm(fn_.func) in ('functools.partial', 'partial') and [norm(a) for a in fn_.args] == ['self._do_pause', f'{exc_param}.msg'] \
+            and not fn_.keywords and cookie_ == exc_param
     chk.ob('DOM-no-step-lost', cia, ok, 'a deferred pause is partial(_do_pause, <pause message>) -- run with the next state as second argument -- with the '
            'interruption as cookie', kind='deferred-pause-action')
     chk.ob('DOM-no-step-lost', dp, dp.params[1:3] == ['state_msg', 'next_state'] or len(dp.params) >= 3, '_do_pause takes (message, next state)', kind='signature')
@@ -209,10 +201,10 @@ def withdrawn_pause_stays_withdrawn(chk: Check) -> None:
     ff = chk.ctx.facts.analyse(step)
     sites = [c for c in calls_in_func(step, '_set_interrupt_action_from_exception')]
     for c in sites:
-        for n_, fs in ff.site_facts(c):
-            if is_none(fs, 'self._interrupt_action'):
-                chk.ob('PAIR-play', step, False, 'step() builds a new interrupt action from an Interruption although no action is installed: a pause that play() called off while the step '
-                       'was blocked in WAITING is re-instated, the process ends up paused after play()', node=c, kind='withdrawn-pause-reinstated')
+        # per way of reaching the site: ``if action is None or action.cookie is not exc:`` reaches it with no action installed, too
+        if any(is_none(fs, 'self._interrupt_action') for n_, fs in ff.site_fact_cases(c)):
+            chk.ob('PAIR-play', step, False, 'step() builds a new interrupt action from an Interruption although no action is installed: a pause that play() called off while the step '
+                   'was blocked in WAITING is re-instated, the process ends up paused after play()', node=c, kind='withdrawn-pause-reinstated')
     chk.ob('PAIR-play', step, True, f'{len(sites)} site(s) that build an interrupt action from a delivered interruption examined', kind='reinstate-scan')
 
 
@@ -270,7 +262,7 @@ def status_pairing(chk: Check) -> None:
     hook_nodes = [m for c in hook for m in cfgp.nodes_containing(c)]
     ok = bool(rets)
     for r in rets:
-        ok &= is_none(fp.at(r), PAUSED) or cfgp.must_pass(cfgp.entry, [r], lambda m: m in hook_nodes, edge_ok=no_exc)
+        ok &= fp.holds_on_every_path(r, lambda fs: is_none(fs, PAUSED), hook_nodes)
         ok &= norm(r.ast.value) == 'True'
     chk.ob('PAIR-play', play, ok, 'play() always returns True with the process un-paused', kind='returns-unpaused')
     cancels = [c for c in calls_in_func(play, 'cancel') if norm(c.func.value) == PAUSING]
